@@ -5,6 +5,21 @@ import json, os, subprocess
 ROOT = os.path.dirname(os.path.dirname(os.path.abspath(__file__)))
 
 CLAIMED = {
+ "C01": dict(
+   text="A verified validator: C01_filter_sound proves in Coq that any cBPF program accepted by check_filter returns the policy's verdict for "
+        "EVERY seccomp_data (all syscall numbers, all architecture words, arbitrary ip/argument words; the proof is by comparison-signature "
+        "representatives, no bound on program or policy size).  On every run the real Builder.Build is executed on boundary-size policies around "
+        "the 255-instruction jump horizon, the full 380-name table, random and malformed policies, re-splits and repeats of one name sequence "
+        "(Build must be a function of its input) and runprog's 16 shipped configurations; in Coq (vm_compute) each real filter must (a) be "
+        "bit-identical to the Gallina port `build` of Builder.Build/Policy.Assemble/Program.Assemble(long-jump rewriting)/bpf.Assemble/sockFilter "
+        "and (b) pass check_filter for the declared policy, which by the theorem is a proof for that filter over its whole input space.  Further "
+        "theorems: fail-closed actions, foreign ABI / x32, unknown names never build, cleanTrace (trace precedence, disjoint, duplicate-free).",
+   note="Partial: the statement 'for every policy' is proved per built filter (validator), not yet as one theorem about the port `build` for all "
+        "policies (C01_build_correct is not proved; stated in DESIGN.md).  Trusted: Coq kernel + vm_compute; cBPF semantics of the fragment "
+        "(ld abs nr/arch, jeq/jgt/jge k, ja, ret) as modelled in Seccomp/Bpf.v; kernel action constants; the syscall table is data dumped from "
+        "go-seccomp-bpf on every run; Python cBPF interpreter as independent oracle.",
+   technique="Coq proof of a reflective validator (translation validation of each built filter inside Coq) + bit-exact Gallina port of the assembler",
+   design="§5 C01"),
  "C09": dict(
    text="Theorems in Coq about executable models of the three classifiers (container: convertReply;convertReplyResult, namespace runner: the "
         "wait-loop body, ptrace runner: Tracer.trace loop body with ptraceHandle.handle) and of Go's WaitStatus decoding: for every exit code "
